@@ -343,13 +343,24 @@ Lemma tables_lock :
 Proof. repeat split. Qed.
 
 (* ------------------------------------------------------------------ has_valid_transform vs invertibility *)
-Lemma singular_transform_refuted : exists t, ts_det t == 0 /\ usvg_ts_valid t = true.
-Proof. exists (from_row 1 2 2 4 300 300). split; vm_compute; reflexivity. Qed.
-
-Lemma singular_transform_guarded t : ts_det t == 0 -> singular_kept t = false -> usvg_ts_valid t = false.
+Lemma Qabs_b_nonneg a : 0 <= Qabs_b a.
 Proof.
-  intros Hd Hk. unfold singular_kept in Hk. apply andb_false_iff in Hk. destruct Hk as [Hk|Hk]; [|exact Hk].
-  apply Qeqb_true in Hd. congruence.
+  unfold Qabs_b. destruct (Qleb 0 a) eqn:E; [apply Qleb_true in E; exact E|].
+  apply Qleb_false in E. lra.
+Qed.
+Lemma Qabs_b_zero a : a == 0 -> Qabs_b a == 0.
+Proof. intros H. unfold Qabs_b. destruct (Qleb 0 a); rewrite H; reflexivity. Qed.
+
+(* a non-invertible transform is invalid for has_valid_transform (as fixed by 427fd1e): the element is not rendered *)
+Theorem noninvertible_is_invalid t : ts_det t == 0 -> usvg_ts_valid t = false.
+Proof.
+  intros Hd. unfold usvg_ts_valid. cbn [forallb valid_ts_tests].
+  replace (eval_ts_test t TT_DetRelTol) with false; [apply andb_false_iff; right; reflexivity|].
+  symmetry. cbn [eval_ts_test]. apply Qltb_false. unfold ts_det in Hd.
+  rewrite (Qabs_b_zero _ Hd).
+  assert (H1 := Qabs_b_nonneg (t_sx t * t_sy t)). assert (H2 := Qabs_b_nonneg (t_kx t * t_ky t)).
+  assert (0 <= F32_EPS) by (unfold F32_EPS; lra).
+  apply Qmult_le_0_compat; lra.
 Qed.
 
 (* ------------------------------------------------------------------ the spec's zero-size shapes are invalid for shapes.rs *)
